@@ -13,6 +13,7 @@ class Transc (α : Type) extends Add α, Sub α, Mul α, Div α, Neg α where
   rpow : α → α → α
   exp : α → α
   log : α → α
+  log10 : α → α
   sqrt : α → α
   gamma : α → α
   pi : α
@@ -49,6 +50,7 @@ instance : Transc Float where
   rpow := Float.pow
   exp := Float.exp
   log := Float.log
+  log10 := Float.log10
   sqrt := Float.sqrt
   gamma := lanczosGamma
   pi := 3.141592653589793
